@@ -71,7 +71,8 @@ class ConnectRules(Rule):
                 elif rcv != 0 and (f[0][1] or f[0][2][0] != "MQTTStateError"):
                     L.violate("C04", "H2", "CONNACK-refused-outcome:%s" % cls,
                               "CONNACK rc=%d but connect() outcome was %r" % (rcv, f[0],))
-            if rcv != 0:
+            if rcv != 0 and not any(a.kind == "connect" and a.accepted and a.nested for a in d.apis):
+                # (an errback may legitimately have called connect() again already)
                 self._idle_check(d, d.conn, "refused")
         # connect Deferreds firing outside a CONNACK dispatch
         for (rid, ok, val) in d.fires:
@@ -139,7 +140,7 @@ class ConnectRules(Rule):
             for rq in c.connects:
                 if rq.pending:
                     L.violate("C04", "H6", "connect-never-fired:%s" % c.state, "connect() rid=%d never fired" % rq.rid)
-            if c.state == "lost":
+            if c.state == "lost" and getattr(L, "silenced", False):
                 if c.notify_expected and c.notify_calls != 1:
                     L.violate("C04", "H4", "notify-count:%d" % c.notify_calls,
                               "onDisconnection called %d times for the loss of conn %d" % (c.notify_calls, c.ci))
@@ -205,6 +206,10 @@ class KeepaliveRules(Rule):
                     L.violate("C15", "K4", "PINGREQ-with-keepalive-0", "PINGREQ written on a connection with keepalive 0")
                 if c.state == "lost":
                     L.violate("C15", "K5", "PINGREQ-after-loss", "PINGREQ written after the connection was reported lost")
+                dn = getattr(c, "disconnect_n", None)
+                if dn is not None and op.n > dn:
+                    L.violate("C15", "K5", "PINGREQ-after-DISCONNECT",
+                              "keepalive still active after disconnect(): PINGREQ written after the DISCONNECT")
                 if c.state != "connected" and c.state != "lost":
                     L.violate("C15", "K1", "PINGREQ-in-%s" % c.state, "PINGREQ written in state %s" % c.state)
         if d.kind == "timer" and d.fired and d.fired["kind"] == "ping" and d.aborted:
